@@ -469,6 +469,8 @@ def text_state(t):
         return text_state(t[1])
     if h == "call" and t[1] == "_preprocess_string" and t[2]:
         s = text_state(t[2][0])
+        if s == "stripped-raw":
+            return "norm-of-stripped"      # labels cut from the raw text, normalised afterwards
         return "norm" if s in ("raw", "norm") else "?"
     if h == "sub" and t[3] == "":
         s = text_state(t[4])
@@ -481,3 +483,15 @@ def text_state(t):
         ss = {text_state(x) for x in t[1:]}
         return ss.pop() if len(ss) == 1 else "?"
     return "?"
+
+
+def search_input_state(cm, gen):
+    """text states ('raw' / 'norm' / ...) of the first argument of every _ctparse(...) call in the
+    streaming entry point *gen*, by provenance of the text parameter (so a local that holds the
+    normalised text, or a helper around the normaliser, is the same as the nested call)"""
+    tparam = gen.args.args[0].arg if gen.args.args else None
+    if tparam is None:
+        return []
+    T = Terms(cm)
+    T.run(gen.body, {tparam: ("text", "raw")})
+    return [text_state(ats[0]) for (name, ats, _node) in T.calls if name == "_ctparse" and ats]
